@@ -15,6 +15,34 @@
    context of the call (None = nil context). *)
 Require Import Verif.Model.Base Verif.Model.Mode Verif.Model.Attrs Verif.Model.Encode Verif.Model.Collect.
 Require Import Verif.Proofs.SortP Verif.Proofs.CollectP.
+Require Import Verif.Model.CollectRef.
+Require Verif.Gen.Assembly Verif.Proofs.GenCollectP.
+
+(* ---- the source against the model (Gen/Assembly.v is translated from Entry.walkParentAttrs and
+   Entry.collectArgs on every run).  A *Entry is read as its chain of own attribute lists, *kvps
+   as the list it points to; [inherit_on flags] is IsAnyBitsSet(LattrsR). ---- *)
+
+(* walkParentAttrs is recursive; this is its induction step: if the recursive call on the parent
+   appends what the model says for the parent's chain, the body appends what the model says for the
+   chain itself - the early return for a logger without attributes when the flag is off, the ancestors
+   first (outermost first) when and only when the flag is on, then the own attributes *)
+Theorem C07_gen_walk_parents : forall flags ctx lvl chain kvps,
+  let inh := inherit_on flags in
+  Assembly.walk_parent_attrs (fun c k => k ++ walk_parents inh c) flags ctx lvl chain kvps =
+  kvps ++ walk_parents inh chain.
+Proof. exact GenCollectP.gen_walk_parents. Qed.
+Print Assumptions C07_gen_walk_parents.
+
+(* collectArgs, given that its three callees append what the model says (fromCtx: the context
+   values of the registered keys; walkParentAttrs: see above; argsToAttrs: the call's attributes),
+   computes the model's [collect] in the repaired variant: context, then chain, then arguments *)
+Theorem C07_gen_collect : forall flags keys ctxv chain args rough lvl,
+  let inh := inherit_on flags in
+  Assembly.collect_args (fun _ k => k ++ from_ctx keys ctxv) (fun c k => k ++ walk_parents inh c) (fun k a => k ++ a)
+    flags (match keys with [] => false | _ :: _ => true end) chain (chain_attrs chain) tt [] rough lvl args =
+  collect inh true keys ctxv chain args.
+Proof. exact GenCollectP.gen_collect. Qed.
+Print Assumptions C07_gen_collect.
 
 (* ORDER: the printed attributes have strictly ascending keys (byte-wise; a nil
    entry, which prints nothing, sorts first) at top level and inside every group
